@@ -1151,9 +1151,12 @@ package gocql
 // cowHostList: the atomic.Value holds nothing or a non-nil *[]*HostInfo whose entries are non-nil
 // (object invariant: `requires` of every method, re-established by add and remove).
 // atomic.Value is modelled sequentially: writers serialise on c.mu, a reader loads one stored list.
+//@ predicate cow_ptr(c): dyn(c.list.v) == nil || (typeis(c.list.v, *[]*HostInfo) && unbox(c.list.v, *[]*HostInfo) != nil)
+//@ predicate cow_entries(c): dyn(c.list.v) != nil ==> forall(i, 0 <= i && i < len(*unbox(c.list.v, *[]*HostInfo)), (*unbox(c.list.v, *[]*HostInfo))[i] != nil && validhost((*unbox(c.list.v, *[]*HostInfo))[i]))
+
 //@ func (c *cowHostList) get
 //@   props C11 C16
-//@   requires dyn(c.list.v) == nil || (typeis(c.list.v, *[]*HostInfo) && unbox(c.list.v, *[]*HostInfo) != nil)
+//@   requires cow_ptr(c)
 //@   modifies nothing
 //@   ensures dyn(c.list.v) == nil ==> len(result) == 0
 //@   ensures dyn(c.list.v) != nil ==> same(result, *unbox(c.list.v, *[]*HostInfo))
@@ -1166,18 +1169,20 @@ package gocql
 //@   modifies nothing
 
 //@ func (h *HostInfo) ConnectAddress
-//@   trusted hosts in policy lists have a valid connect address; reads only
+//@   props C16 C11
+//@   requires validhost(h)
 //@   modifies nothing
+//@   ensures validip(result)
 
 //@ func (c *cowHostList) add
 //@   props C11 C16
-//@   requires host != nil
-//@   requires dyn(c.list.v) == nil || (typeis(c.list.v, *[]*HostInfo) && unbox(c.list.v, *[]*HostInfo) != nil)
-//@   requires dyn(c.list.v) != nil ==> forall(i, 0 <= i && i < len(*unbox(c.list.v, *[]*HostInfo)), (*unbox(c.list.v, *[]*HostInfo))[i] != nil)
+//@   requires host != nil && validhost(host)
+//@   requires cow_ptr(c)
+//@   requires cow_entries(c)
 //@   modifies c.list
 //@   ensures typeis(c.list.v, *[]*HostInfo) || (!result && dyn(c.list.v) == nil)
 //@   ensures dyn(c.list.v) != nil ==> unbox(c.list.v, *[]*HostInfo) != nil
-//@   ensures dyn(c.list.v) != nil ==> forall(i, 0 <= i && i < len(*unbox(c.list.v, *[]*HostInfo)), (*unbox(c.list.v, *[]*HostInfo))[i] != nil)
+//@   ensures cow_entries(c)
 // not added: the published list is the same object as before
 //@   ensures !result ==> same(c.list.v, old(c.list.v)) && dyn(old(c.list.v)) != nil
 // added: the new list is the old one followed by host (copy on write: the old list is in the frame)
@@ -1193,10 +1198,10 @@ package gocql
 // over mutable HostInfo addresses, not expressible here): not claimed, see DESIGN.md.
 //@ func (c *cowHostList) remove
 //@   props C11 C16
-//@   requires dyn(c.list.v) == nil || (typeis(c.list.v, *[]*HostInfo) && unbox(c.list.v, *[]*HostInfo) != nil)
-//@   requires dyn(c.list.v) != nil ==> forall(i, 0 <= i && i < len(*unbox(c.list.v, *[]*HostInfo)), (*unbox(c.list.v, *[]*HostInfo))[i] != nil)
+//@   requires cow_ptr(c)
+//@   requires cow_entries(c)
 //@   modifies c.list
-//@   ensures dyn(c.list.v) == nil || (typeis(c.list.v, *[]*HostInfo) && unbox(c.list.v, *[]*HostInfo) != nil)
+//@   ensures cow_ptr(c)
 //@   ensures !result ==> same(c.list.v, old(c.list.v))
 //@   ensures result ==> dyn(old(c.list.v)) != nil && dyn(c.list.v) != nil && len(*unbox(c.list.v, *[]*HostInfo)) == len(old(*unbox(c.list.v, *[]*HostInfo))) - 1
 // every surviving entry comes from the old list, in order, up to the first removed position
@@ -1216,11 +1221,11 @@ package gocql
 //@ func (d *dcAwareRR) AddHost
 //@   props C11 C16
 //@   count_calls add
-//@   requires host != nil
-//@   requires dyn(d.localHosts.list.v) == nil || (typeis(d.localHosts.list.v, *[]*HostInfo) && unbox(d.localHosts.list.v, *[]*HostInfo) != nil)
-//@   requires dyn(d.localHosts.list.v) != nil ==> forall(i, 0 <= i && i < len(*unbox(d.localHosts.list.v, *[]*HostInfo)), (*unbox(d.localHosts.list.v, *[]*HostInfo))[i] != nil)
-//@   requires dyn(d.remoteHosts.list.v) == nil || (typeis(d.remoteHosts.list.v, *[]*HostInfo) && unbox(d.remoteHosts.list.v, *[]*HostInfo) != nil)
-//@   requires dyn(d.remoteHosts.list.v) != nil ==> forall(i, 0 <= i && i < len(*unbox(d.remoteHosts.list.v, *[]*HostInfo)), (*unbox(d.remoteHosts.list.v, *[]*HostInfo))[i] != nil)
+//@   requires host != nil && validhost(host)
+//@   requires cow_ptr(d.localHosts)
+//@   requires cow_entries(d.localHosts)
+//@   requires cow_ptr(d.remoteHosts)
+//@   requires cow_entries(d.remoteHosts)
 //@   modifies d.localHosts, d.remoteHosts
 //@   ensures add_calls == 1
 // the other tier is untouched; a host that was added is the last entry of its own tier
@@ -1236,7 +1241,7 @@ package gocql
 //@ func (r *roundRobinHostPolicy) Pick
 //@   props C11
 //@   requires r.lastUsedHostIdx < 1<<62
-//@   requires dyn(r.hosts.list.v) == nil || (typeis(r.hosts.list.v, *[]*HostInfo) && unbox(r.hosts.list.v, *[]*HostInfo) != nil)
+//@   requires cow_ptr(r.hosts)
 //@   modifies r.lastUsedHostIdx
 //@   ensures r.lastUsedHostIdx == old(r.lastUsedHostIdx) + 1
 //@   before roundRobbin: arg0 == int(old(r.lastUsedHostIdx)) + 1 && len(arg1) == 1
@@ -1246,8 +1251,8 @@ package gocql
 //@ func (d *dcAwareRR) Pick
 //@   props C11
 //@   requires d.lastUsedHostIdx < 1<<62
-//@   requires dyn(d.localHosts.list.v) == nil || (typeis(d.localHosts.list.v, *[]*HostInfo) && unbox(d.localHosts.list.v, *[]*HostInfo) != nil)
-//@   requires dyn(d.remoteHosts.list.v) == nil || (typeis(d.remoteHosts.list.v, *[]*HostInfo) && unbox(d.remoteHosts.list.v, *[]*HostInfo) != nil)
+//@   requires cow_ptr(d.localHosts)
+//@   requires cow_ptr(d.remoteHosts)
 //@   modifies d.lastUsedHostIdx
 //@   ensures d.lastUsedHostIdx == old(d.lastUsedHostIdx) + 1
 //@   before roundRobbin: arg0 == int(old(d.lastUsedHostIdx)) + 1 && len(arg1) == 2
@@ -1259,9 +1264,9 @@ package gocql
 //@ func (d *rackAwareRR) Pick
 //@   props C11
 //@   requires d.lastUsedHostIdx < 1<<62 && len(d.hosts) == 3
-//@   requires dyn(d.hosts[0].list.v) == nil || (typeis(d.hosts[0].list.v, *[]*HostInfo) && unbox(d.hosts[0].list.v, *[]*HostInfo) != nil)
-//@   requires dyn(d.hosts[1].list.v) == nil || (typeis(d.hosts[1].list.v, *[]*HostInfo) && unbox(d.hosts[1].list.v, *[]*HostInfo) != nil)
-//@   requires dyn(d.hosts[2].list.v) == nil || (typeis(d.hosts[2].list.v, *[]*HostInfo) && unbox(d.hosts[2].list.v, *[]*HostInfo) != nil)
+//@   requires cow_ptr(d.hosts[0])
+//@   requires cow_ptr(d.hosts[1])
+//@   requires cow_ptr(d.hosts[2])
 //@   modifies d.lastUsedHostIdx
 //@   ensures d.lastUsedHostIdx == old(d.lastUsedHostIdx) + 1
 //@   before roundRobbin: arg0 == int(old(d.lastUsedHostIdx)) + 1 && len(arg1) == 3
@@ -1294,13 +1299,13 @@ package gocql
 //@ func (d *rackAwareRR) AddHost
 //@   props C11 C16
 //@   count_calls add
-//@   requires host != nil && len(d.hosts) == 3
-//@   requires dyn(d.hosts[0].list.v) == nil || (typeis(d.hosts[0].list.v, *[]*HostInfo) && unbox(d.hosts[0].list.v, *[]*HostInfo) != nil)
-//@   requires dyn(d.hosts[0].list.v) != nil ==> forall(i, 0 <= i && i < len(*unbox(d.hosts[0].list.v, *[]*HostInfo)), (*unbox(d.hosts[0].list.v, *[]*HostInfo))[i] != nil)
-//@   requires dyn(d.hosts[1].list.v) == nil || (typeis(d.hosts[1].list.v, *[]*HostInfo) && unbox(d.hosts[1].list.v, *[]*HostInfo) != nil)
-//@   requires dyn(d.hosts[1].list.v) != nil ==> forall(i, 0 <= i && i < len(*unbox(d.hosts[1].list.v, *[]*HostInfo)), (*unbox(d.hosts[1].list.v, *[]*HostInfo))[i] != nil)
-//@   requires dyn(d.hosts[2].list.v) == nil || (typeis(d.hosts[2].list.v, *[]*HostInfo) && unbox(d.hosts[2].list.v, *[]*HostInfo) != nil)
-//@   requires dyn(d.hosts[2].list.v) != nil ==> forall(i, 0 <= i && i < len(*unbox(d.hosts[2].list.v, *[]*HostInfo)), (*unbox(d.hosts[2].list.v, *[]*HostInfo))[i] != nil)
+//@   requires host != nil && len(d.hosts) == 3 && validhost(host)
+//@   requires cow_ptr(d.hosts[0])
+//@   requires cow_entries(d.hosts[0])
+//@   requires cow_ptr(d.hosts[1])
+//@   requires cow_entries(d.hosts[1])
+//@   requires cow_ptr(d.hosts[2])
+//@   requires cow_entries(d.hosts[2])
 //@   modifies d.hosts[*]
 //@   ensures add_calls == 1
 // only the host's own tier changes; an added host is the last entry of that tier
@@ -1314,9 +1319,9 @@ package gocql
 //@ func (r *roundRobinHostPolicy) AddHost
 //@   props C11 C16
 //@   count_calls add
-//@   requires host != nil
-//@   requires dyn(r.hosts.list.v) == nil || (typeis(r.hosts.list.v, *[]*HostInfo) && unbox(r.hosts.list.v, *[]*HostInfo) != nil)
-//@   requires dyn(r.hosts.list.v) != nil ==> forall(i, 0 <= i && i < len(*unbox(r.hosts.list.v, *[]*HostInfo)), (*unbox(r.hosts.list.v, *[]*HostInfo))[i] != nil)
+//@   requires host != nil && validhost(host)
+//@   requires cow_ptr(r.hosts)
+//@   requires cow_entries(r.hosts)
 //@   modifies r.hosts
 //@   ensures add_calls == 1
 //@   ensures add_ret0 ==> (*unbox(r.hosts.list.v, *[]*HostInfo))[len(*unbox(r.hosts.list.v, *[]*HostInfo))-1] == host
@@ -1326,11 +1331,11 @@ package gocql
 //@ func (d *dcAwareRR) RemoveHost
 //@   props C11 C16
 //@   count_calls remove
-//@   requires host != nil
-//@   requires dyn(d.localHosts.list.v) == nil || (typeis(d.localHosts.list.v, *[]*HostInfo) && unbox(d.localHosts.list.v, *[]*HostInfo) != nil)
-//@   requires dyn(d.localHosts.list.v) != nil ==> forall(i, 0 <= i && i < len(*unbox(d.localHosts.list.v, *[]*HostInfo)), (*unbox(d.localHosts.list.v, *[]*HostInfo))[i] != nil)
-//@   requires dyn(d.remoteHosts.list.v) == nil || (typeis(d.remoteHosts.list.v, *[]*HostInfo) && unbox(d.remoteHosts.list.v, *[]*HostInfo) != nil)
-//@   requires dyn(d.remoteHosts.list.v) != nil ==> forall(i, 0 <= i && i < len(*unbox(d.remoteHosts.list.v, *[]*HostInfo)), (*unbox(d.remoteHosts.list.v, *[]*HostInfo))[i] != nil)
+//@   requires host != nil && validhost(host)
+//@   requires cow_ptr(d.localHosts)
+//@   requires cow_entries(d.localHosts)
+//@   requires cow_ptr(d.remoteHosts)
+//@   requires cow_entries(d.remoteHosts)
 //@   modifies d.localHosts, d.remoteHosts
 //@   ensures remove_calls == 1
 //@   ensures host.dataCenter == d.local ==> same(d.remoteHosts.list.v, old(d.remoteHosts.list.v))
@@ -1340,18 +1345,100 @@ package gocql
 //@ func (d *rackAwareRR) RemoveHost
 //@   props C11 C16
 //@   count_calls remove
-//@   requires host != nil && len(d.hosts) == 3
-//@   requires dyn(d.hosts[0].list.v) == nil || (typeis(d.hosts[0].list.v, *[]*HostInfo) && unbox(d.hosts[0].list.v, *[]*HostInfo) != nil)
-//@   requires dyn(d.hosts[0].list.v) != nil ==> forall(i, 0 <= i && i < len(*unbox(d.hosts[0].list.v, *[]*HostInfo)), (*unbox(d.hosts[0].list.v, *[]*HostInfo))[i] != nil)
-//@   requires dyn(d.hosts[1].list.v) == nil || (typeis(d.hosts[1].list.v, *[]*HostInfo) && unbox(d.hosts[1].list.v, *[]*HostInfo) != nil)
-//@   requires dyn(d.hosts[1].list.v) != nil ==> forall(i, 0 <= i && i < len(*unbox(d.hosts[1].list.v, *[]*HostInfo)), (*unbox(d.hosts[1].list.v, *[]*HostInfo))[i] != nil)
-//@   requires dyn(d.hosts[2].list.v) == nil || (typeis(d.hosts[2].list.v, *[]*HostInfo) && unbox(d.hosts[2].list.v, *[]*HostInfo) != nil)
-//@   requires dyn(d.hosts[2].list.v) != nil ==> forall(i, 0 <= i && i < len(*unbox(d.hosts[2].list.v, *[]*HostInfo)), (*unbox(d.hosts[2].list.v, *[]*HostInfo))[i] != nil)
+//@   requires host != nil && len(d.hosts) == 3 && validhost(host)
+//@   requires cow_ptr(d.hosts[0])
+//@   requires cow_entries(d.hosts[0])
+//@   requires cow_ptr(d.hosts[1])
+//@   requires cow_entries(d.hosts[1])
+//@   requires cow_ptr(d.hosts[2])
+//@   requires cow_entries(d.hosts[2])
 //@   modifies d.hosts[*]
 //@   ensures remove_calls == 1
 //@   ensures !(host.dataCenter == d.localDC && host.rack == d.localRack) ==> same(d.hosts[0].list.v, old(d.hosts[0].list.v))
 //@   ensures !(host.dataCenter == d.localDC && host.rack != d.localRack) ==> same(d.hosts[1].list.v, old(d.hosts[1].list.v))
 //@   ensures !(host.dataCenter != d.localDC) ==> same(d.hosts[2].list.v, old(d.hosts[2].list.v))
+
+// ---------------------------------------------------------------------------
+// ring.go (C16): the three indexes of the ring (by id, by node-to-node address, ordered list)
+// ---------------------------------------------------------------------------
+
+//@ func (h *HostInfo) HostID
+//@   props C16
+//@   modifies nothing
+//@   ensures same(result, h.hostId)
+
+// an address is usable when it is a specified IP; a host when one of its five address fields is
+//@ predicate validip(a): a != nil && !ip_unspec(a, len(a))
+//@ predicate validhost(h): validip(h.connectAddress) || validip(h.rpcAddress) || validip(h.preferredIP) || validip(h.broadcastAddress) || validip(h.peer)
+
+//@ func validIpAddr
+//@   props C16
+//@   modifies nothing
+//@   ensures result == validip(addr)
+
+//@ func (h *HostInfo) connectAddressLocked
+//@   props C16
+//@   modifies nothing
+//@   ensures validhost(h) == validip(result0)
+
+//@ func (h *HostInfo) nodeToNodeAddress
+//@   props C16
+//@   modifies nothing
+
+// a host has a usable address when one of its five address fields is a specified IP
+//@ func (h *HostInfo) invalidConnectAddr
+//@   props C16
+//@   modifies nothing
+//@   ensures result == !validhost(h)
+
+//@ func (r *ring) getHost
+//@   props C16
+//@   modifies nothing
+//@   ensures haskey(r.hosts, hostID) ==> result == r.hosts[hostID]
+//@   ensures !haskey(r.hosts, hostID) ==> result == nil
+
+//@ func (r *ring) getHostByIP
+//@   props C16
+//@   modifies nothing
+//@   ensures result1 == haskey(r.hostIPToUUID, ip)
+//@   ensures result1 && haskey(r.hosts, r.hostIPToUUID[ip]) ==> result0 == r.hosts[r.hostIPToUUID[ip]]
+//@   ensures result1 && !haskey(r.hosts, r.hostIPToUUID[ip]) ==> result0 == nil
+
+//@ func (r *ring) rrHost
+//@   props C16
+//@   modifies r.pos
+//@   ensures len(r.hostList) == 0 ==> result == nil
+
+// addHostIfMissing: a host id is added once; a known id leaves all three indexes untouched and
+// returns the HostInfo already in the ring. Hosts reaching the ring passed the address validation.
+//@ func (r *ring) addHostIfMissing
+//@   props C16
+//@   count_calls String
+//@   requires host != nil
+//@   requires validhost(host)
+//@   ensures result1 == old(haskey(r.hosts, host.hostId))
+//@   ensures result1 ==> result0 == old(r.hosts[host.hostId]) && map_unchanged_except(r.hosts) && map_unchanged_except(r.hostIPToUUID) && same(r.hostList, old(r.hostList))
+//@   ensures !result1 ==> result0 == host && haskey(r.hosts, host.hostId) && r.hosts[host.hostId] == host && map_unchanged_except(r.hosts, host.hostId)
+//@   ensures !result1 ==> String_calls == 1 && haskey(r.hostIPToUUID, String_ret0) && r.hostIPToUUID[String_ret0] == host.hostId && map_unchanged_except(r.hostIPToUUID, String_ret0)
+//@   ensures !result1 ==> len(r.hostList) == old(len(r.hostList)) + 1 && r.hostList[len(r.hostList)-1] == host
+
+// removeHost: the node disappears from the by-id index and from the list; the by-address index
+// loses the node's address only when that address still leads to this node (another node that
+// took over the address stays reachable); every other entry of both maps is untouched.
+//@ func (r *ring) removeHost
+//@   props C16
+//@   count_calls String
+//@   requires haskey(r.hosts, hostID) ==> r.hosts[hostID] != nil
+//@   requires forall(k, 0 <= k && k < len(r.hostList), r.hostList[k] != nil)
+//@   ensures result == old(haskey(r.hosts, hostID))
+//@   ensures r.hosts != nil && r.hostIPToUUID != nil && !haskey(r.hosts, hostID)
+//@   ensures map_unchanged_except(r.hosts, hostID)
+//@   ensures !result ==> map_unchanged_except(r.hostIPToUUID)
+//@   ensures result ==> String_calls == 1 && map_unchanged_except(r.hostIPToUUID, String_ret0)
+//@   ensures result && old(haskey(r.hostIPToUUID, String_ret0)) && old(r.hostIPToUUID[String_ret0]) != hostID ==> haskey(r.hostIPToUUID, String_ret0) && r.hostIPToUUID[String_ret0] == old(r.hostIPToUUID[String_ret0])
+//@   ensures result && old(haskey(r.hostIPToUUID, String_ret0)) && old(r.hostIPToUUID[String_ret0]) == hostID ==> !haskey(r.hostIPToUUID, String_ret0)
+//@   ensures len(r.hostList) <= old(len(r.hostList)) && len(r.hostList) >= old(len(r.hostList)) - 1
+//@   loop 0: invariant -1 <= rangeindex && rangeindex < len(r.hostList) && same(r.hostList, old(r.hostList)) && r.hosts != nil && r.hostIPToUUID != nil && String_calls == 0
 
 // ---------------------------------------------------------------------------
 // topology.go / token.go (C10): replica placement
